@@ -30,11 +30,101 @@ import (
 type verifC25S3 struct {
 	*storage.MemoryS3Client
 	uploads atomic.Int64
+	failFor string // uploads whose key contains this fail
 }
 
 func (s *verifC25S3) UploadSegment(ctx context.Context, key string, body []byte) error {
+	if s.failFor != "" && strings.Contains(key, s.failFor) {
+		return errors.New("verif: s3 upload failed")
+	}
 	s.uploads.Add(1)
 	return s.MemoryS3Client.UploadSegment(ctx, key, body)
+}
+
+// verifC25Cross: ONE produce request over several partitions that starts with S3 rated healthy; the upload of
+// the partition at index failAt fails, which (low thresholds) pushes the rating to unavailable part-way through the
+// request.  Reports, per partition in request order: code, whether it was appended (offset/S3 moved), and the
+// rating the monitor reports right after the request.
+func verifC25Cross(nparts int, failAt int, acks int16) (out string) {
+	defer func() {
+		if r := recover(); r != nil {
+			out = fmt.Sprintf("panic %v", r)
+		}
+	}()
+	os.Setenv("KAFSCALE_S3_ERROR_RATE_WARN", "0.001")
+	os.Setenv("KAFSCALE_S3_ERROR_RATE_CRIT", "0.002")
+	defer os.Unsetenv("KAFSCALE_S3_ERROR_RATE_WARN")
+	defer os.Unsetenv("KAFSCALE_S3_ERROR_RATE_CRIT")
+	ctx := context.Background()
+	brokerInfo := protocol.MetadataBroker{NodeID: 1, Host: "localhost", Port: 19092}
+	store := metadata.NewInMemoryStore(metadataForBroker(brokerInfo))
+	s3 := &verifC25S3{MemoryS3Client: storage.NewMemoryS3Client()}
+	h := newHandler(store, s3, brokerInfo, slog.New(slog.NewTextHandler(io.Discard, nil)))
+	cid := "c25"
+	names := make([]string, nparts)
+	req := kmsg.NewPtrProduceRequest()
+	req.Version = 9
+	req.Acks = acks
+	req.TimeoutMillis = 1000
+	for i := 0; i < nparts; i++ {
+		names[i] = fmt.Sprintf("c25x%d", i)
+		if i == failAt {
+			names[i] = fmt.Sprintf("c25fail%d", i)
+		}
+		if _, err := store.CreateTopic(ctx, metadata.TopicSpec{Name: names[i], NumPartitions: 1, ReplicationFactor: 1}); err != nil {
+			return "setup-failed " + err.Error()
+		}
+		t := kmsg.NewProduceRequestTopic()
+		t.Topic = names[i]
+		p := kmsg.NewProduceRequestTopicPartition()
+		p.Records = verifC25Batch(1)
+		t.Partitions = append(t.Partitions, p)
+		req.Topics = append(req.Topics, t)
+	}
+	s3.failFor = "/c25fail"
+	if st := string(h.s3Health.State()); st != "healthy" {
+		return "not-healthy-at-start " + st
+	}
+	payload, err := h.Handle(ctx, &protocol.RequestHeader{APIKey: 0, APIVersion: 9, CorrelationID: 7, ClientID: &cid}, req)
+	if err != nil {
+		return "produce-error " + err.Error()
+	}
+	final := string(h.s3Health.State())
+	codes := make([]string, nparts)
+	for i := range codes {
+		codes[i] = "?"
+	}
+	if payload != nil {
+		resp := kmsg.NewPtrProduceResponse()
+		resp.Version = 9
+		if err := resp.ReadFrom(payload[5:]); err != nil {
+			return "decode-error " + err.Error()
+		}
+		for i, t := range resp.Topics {
+			if i < nparts && len(t.Partitions) == 1 {
+				codes[i] = strconv.Itoa(int(t.Partitions[0].ErrorCode))
+			}
+		}
+	} else {
+		for i := range codes {
+			codes[i] = "noreply"
+		}
+	}
+	app := make([]string, nparts)
+	for i, n := range names {
+		no, _ := store.NextOffset(ctx, n, 0)
+		buffered := int64(0)
+		h.logMu.RLock()
+		if pl := h.logs[n][0]; pl != nil {
+			buffered = pl.BufferedHighWatermark()
+		}
+		h.logMu.RUnlock()
+		app[i] = "0"
+		if no > 0 || buffered > 0 {
+			app[i] = "1"
+		}
+	}
+	return fmt.Sprintf("cross codes=%s appended=%s final=%s", strings.Join(codes, ","), strings.Join(app, ","), final)
 }
 
 func verifC25Batch(n int32) []byte {
@@ -215,7 +305,12 @@ func init() {
 		if len(f) == 0 || strings.HasPrefix(f[0], "#") {
 			continue
 		}
-		if f[0] == "gate" && len(f) == 3 {
+		if f[0] == "cross" && len(f) == 4 {
+			n, _ := strconv.Atoi(f[1])
+			at, _ := strconv.Atoi(f[2])
+			acks, _ := strconv.Atoi(f[3])
+			fmt.Fprintln(w, verifC25Cross(n, at, int16(acks)))
+		} else if f[0] == "gate" && len(f) == 3 {
 			acks, _ := strconv.Atoi(f[2])
 			fmt.Fprintln(w, verifC25Gate(f[1], int16(acks)))
 		} else {
